@@ -14,7 +14,7 @@ import (
 //
 // One-step obligations over the placement invariant INV: "every key held in a member's local store has its hash in
 // (predecessor member, member]". The pre-state is an arbitrary ring of 1..N real LocalNodes (symbolic ids, stabilised
-// pointers, real kv/memory stores sharing an uninterpreted hash function) holding K pairwise distinct keys (symbolic
+// pointers, real kv/memory stores sharing a table-driven hash function with arbitrary values) holding K pairwise distinct keys (symbolic
 // bytes, symbolic hashes) that satisfy INV; one membership step runs (the real RequestToJoin, reached through any
 // member, or the real executeLeave of a member); afterwards INV is asserted for the new membership by reading every
 // store: RangeKeys(0,0) of every node lists exactly the keys whose hash lies in that node's new arc, and an Export of
@@ -80,7 +80,7 @@ func zzC05Keys(rr *zzRealRing, home int) []*zzC05Key {
 	keys := make([]*zzC05Key, K)
 	for i := range keys {
 		k := &zzC05Key{key: rt.BytesN("key", zzC05Lens[i%len(zzC05Lens)]), owner: home}
-		k.hash = zzUFHash(k.key)
+		k.hash = zzNewKeyHash(k.key)
 		for j := 0; j < i; j++ {
 			rt.Assume(!rt.EqBytes(keys[j].key, k.key))
 			if rt.Bound("COLL") == 0 {
@@ -115,13 +115,16 @@ func zzC05CheckPlacement(stores []zzC05Store, keys []*zzC05Key, holder func(k *z
 		list, err := st.kv.RangeKeys(ctx, 0, 0)
 		rt.Assert(err == nil, "store-readable")
 		total := 0
+		present, exclusive := true, true
 		for _, k := range keys {
 			want := rt.IteInt(rt.And(k.holds(), holder(k) == st.id), 1, 0)
 			c := zzCountKey(list, k.key)
-			rt.Assert(c >= want, "key-is-on-its-responsible-node")
-			rt.Assert(c <= want, "key-is-only-on-its-responsible-node")
+			present = rt.And(present, c >= want)
+			exclusive = rt.And(exclusive, c <= want)
 			total += want
 		}
+		rt.Assert(present, "key-is-on-its-responsible-node")
+		rt.Assert(exclusive, "key-is-only-on-its-responsible-node")
 		rt.Assert(len(list) == total, "node-holds-nothing-but-the-keys-of-its-arc")
 	}
 	if rt.Bound("CONTENT") == 0 {
@@ -157,8 +160,9 @@ func ZZ_C05_Join() {
 	if n < rt.Bound("NMIN") {
 		return
 	}
-	ring := zzNewRing(n)
-	rr := zzNewRealRing(ring, zzUFHash, rt.Bound("FING") > 0)
+	zzResetHashes()
+	ring := zzNewRingCmp(n)
+	rr := zzNewRealRing(ring, zzTabHash, rt.Bound("FING") > 0)
 	jid := rt.U64("joiner")
 	rt.Assume(jid < zzM)
 	for _, id := range ring.ids {
@@ -178,7 +182,7 @@ func ZZ_C05_Join() {
 	if importFails {
 		jstate = chord.Left // the joiner went away: its Import refuses
 	}
-	jkv := memory.WithHashFn(zzUFHash)
+	jkv := memory.WithHashFn(zzTabHash)
 	joiner := zzBareNode(jid, jstate, jkv)
 
 	pre, succs, err := rr.nodes[0].RequestToJoin(joiner)
@@ -260,8 +264,9 @@ func ZZ_C05_Leave() {
 	if n < rt.Bound("NMIN") {
 		return
 	}
-	ring := zzNewRing(n)
-	rr := zzNewRealRing(ring, zzUFHash, rt.Bound("FING") > 0)
+	zzResetHashes()
+	ring := zzNewRingCmp(n)
+	rr := zzNewRealRing(ring, zzTabHash, rt.Bound("FING") > 0)
 	leaver := rr.nodes[0]
 	sIdx := 1 % n
 	keys := zzC05Keys(rr, 0)
